@@ -164,9 +164,9 @@ func (v *Verifier) customHeap(st *State, key, idxSort, elSort string) *HeapArr {
 	return h
 }
 
-func (v *Verifier) recordWrite(key string, addr *Term) {
+func (v *Verifier) recordWrite(st *State, key string, addr *Term) {
 	if v.col != nil {
-		v.col.writes = append(v.col.writes, wrec{key, addr})
+		st.colW = append(st.colW, wrec{key, addr})
 	}
 }
 
@@ -213,7 +213,7 @@ func (v *Verifier) store(st *State, addr *Term, t types.Type, val *Term) {
 	}
 	h := v.heapFor(st, s)
 	h.write(addr, val)
-	v.recordWrite(h.Key, addr)
+	v.recordWrite(st, h.Key, addr)
 }
 
 // leaves enumerates (address, sort) for every scalar leaf of a value of type t at addr.
@@ -246,7 +246,7 @@ func (v *Verifier) havocAt(st *State, addr *Term, t types.Type, why string) {
 		v.addTypeFacts(st, f, l.typ)
 		h := v.heapFor(st, l.sort)
 		h.write(l.addr, f)
-		v.recordWrite(h.Key, l.addr)
+		v.recordWrite(st, h.Key, l.addr)
 	}
 }
 
